@@ -247,6 +247,16 @@ def run_triple(case):
             want = N(sum(R.val(*x) for x in R.cells(bb3)))
             if got != want:
                 bad('formula', '%s -> %s' % (f, got), want)
+    if (ia * 31 + ib * 7 + ic) % 5 == 0:
+        # a union of three (and four) areas written in one pair of parentheses
+        ex += 3
+        tot = sum(R.val(*x) for x in sa) + sum(R.val(*x) for x in sb) + sum(R.val(*x) for x in sc)
+        for f, want in (('=SUM((%s,%s,%s))' % (R.name(a), R.name(b), R.name(c)), N(tot)),
+                        ('=COUNT((%s,%s,%s))' % (R.name(c), R.name(a), R.name(b)), N(len(sa) + len(sb) + len(sc))),
+                        ('=SUM((%s,%s,%s,%s))' % (R.name(a), R.name(b), R.name(c), R.name(a)), N(tot + sum(R.val(*x) for x in sa)))):
+            got = eval_on_grid(f)
+            if got != want:
+                bad('formula', '%s -> %s' % (f, got), want)
     if (ia * 31 + ib * 7 + ic) % 9 == 0 and (sa & sc or sb & sc):
         ex += 1
         f = '=SUM((%s,%s) %s)' % (R.name(a), R.name(b), R.name(c))
